@@ -1,0 +1,48 @@
+//! Read-only structural snapshot of the regex tree and access to the prefix function.
+//! Only compiled with `--cfg redirectionio_verif` (verification harness); never in normal builds.
+use super::item::Item;
+use super::tree::{RegexTreeMap, UniqueRegexTreeMap};
+use serde_json::{Value, json};
+
+impl<V> Item<V> {
+    pub fn verif_snapshot(&self) -> Value {
+        match self {
+            Item::Empty(ignore_case) => json!({"k": "empty", "ic": ignore_case}),
+            Item::Leaf(leaf) => {
+                let mut ids: Vec<&String> = leaf.values.keys().collect();
+                ids.sort();
+
+                json!({
+                    "k": "leaf",
+                    "pat": leaf.regex.original,
+                    "ids": ids,
+                    "compiled": leaf.regex.compiled.is_some(),
+                    "ic": leaf.regex.ignore_case,
+                })
+            }
+            Item::Node(node) => json!({
+                "k": "node",
+                "pat": node.regex.original,
+                "compiled": node.regex.compiled.is_some(),
+                "ic": node.regex.ignore_case,
+                "ch": node.children.iter().map(|c| c.verif_snapshot()).collect::<Vec<Value>>(),
+            }),
+        }
+    }
+}
+
+impl<V> RegexTreeMap<V> {
+    pub fn verif_snapshot(&self) -> Value {
+        self.root.verif_snapshot()
+    }
+}
+
+impl<V> UniqueRegexTreeMap<V> {
+    pub fn verif_snapshot(&self) -> Value {
+        self.tree.verif_snapshot()
+    }
+}
+
+pub fn verif_common_prefix_char_size(left: &str, right: &str) -> u32 {
+    super::prefix::common_prefix_char_size(left, right)
+}
